@@ -39,7 +39,7 @@ var argActions = []struct {
 	{"put", actPut}, {"print", actPrint}, {"transform", actTransform}, {"transform-query", actTransformQuery}, {"transform-prompt", actTransformPrompt},
 	{"become", actBecome}, {"change-header", actChangeHeader}, {"transform-header", actTransformHeader}, {"search", actSearch}, {"pos", actPosition},
 	{"change-border-label", actChangeBorderLabel}, {"change-preview-label", actChangePreviewLabel}, {"change-nth", actChangeNth}, {"change-pointer", actChangePointer},
-	{"change-ghost", actChangeGhost}, {"transform-search", actTransformSearch}, {"change-list-label", actChangeListLabel}}
+	{"change-ghost", actChangeGhost}, {"transform-search", actTransformSearch}, {"change-list-label", actChangeListLabel}, {"change-preview-window", actChangePreviewWindow}, {"change-preview-window", actChangePreviewWindow}}
 
 var plainActions = []struct {
 	n string
@@ -47,7 +47,7 @@ var plainActions = []struct {
 }{{"up", []actionType{actUp}}, {"down", []actionType{actDown}}, {"accept", []actionType{actAccept}}, {"toggle-all", []actionType{actToggleAll}},
 	{"kill-line", []actionType{actKillLine}}, {"first", []actionType{actFirst}}, {"toggle-down", []actionType{actToggle, actDown}}, {"abort", []actionType{actAbort}},
 	{"select-all", []actionType{actSelectAll}}, {"backward-kill-word", []actionType{actBackwardKillWord}}, {"toggle-preview", []actionType{actTogglePreview}},
-	{"clear-query", []actionType{actClearQuery}}, {"ignore", []actionType{actIgnore}}, {"yank", []actionType{actYank}}}
+	{"clear-query", []actionType{actClearQuery}}, {"ignore", []actionType{actIgnore}}, {"yank", []actionType{actYank}}, {"show-preview", []actionType{actShowPreview}}, {"hide-preview", []actionType{actHidePreview}}, {"toggle-preview", []actionType{actTogglePreview}}}
 
 var bindKeys = []struct {
 	n string
@@ -74,6 +74,10 @@ func genBindPair(t *rapid.T, last bool) bindPair {
 		if rapid.Bool().Draw(t, "witharg") {
 			aa := argActions[rapid.IntRange(0, len(argActions)-1).Draw(t, "aa")]
 			arg := string(rapid.SliceOfN(rapid.SampledFrom(bindArgAlpha), 0, 8).Draw(t, "arg"))
+			if aa.t == actChangePreviewWindow {
+				// the argument of this action is validated when it is parsed
+				arg = rapid.SampledFrom([]string{"up", "down", "hidden", "right,wrap", "left,border-none", "nohidden", ""}).Draw(t, "previewWindowArg")
+			}
 			form := rapid.IntRange(0, len(bindOpeners)).Draw(t, "form")
 			if form == len(bindOpeners) && !lastOverall {
 				form = rapid.IntRange(0, len(bindOpeners)-1).Draw(t, "form2")
@@ -163,6 +167,27 @@ func propC17BindRoundTrip(t *rapid.T) {
 	}
 	if len(keymap) != len(want) {
 		t.Fatalf("--bind %q: %d keys bound, expected %d", str, len(keymap), len(want))
+	}
+	// what a run of fzf does with the parsed bindings before using them: the actions that change
+	// the preview window go first (in their order), the others follow (in theirs) - for every key
+	// on its own
+	if popts, perr := ParseOptions(false, []string{"--bind", str}); perr == nil {
+		if err := postProcessOptions(popts); err == nil {
+			for ev, acts := range want {
+				var first, rest []bindAct
+				for _, a := range acts {
+					switch a.typ {
+					case actTogglePreview, actShowPreview, actHidePreview, actChangePreviewWindow:
+						first = append(first, a)
+					default:
+						rest = append(rest, a)
+					}
+				}
+				if msg := sameActions(popts.Keymap[ev], append(first, rest...)); msg != "" {
+					t.Fatalf("--bind %q after post-processing: key %v: %s", str, ev, msg)
+				}
+			}
+		}
 	}
 	// the same AST through every delimiter form gives the same keymap
 	form := rapid.IntRange(0, len(bindOpeners)-1).Draw(t, "reform")
